@@ -280,7 +280,7 @@ def base_pipeline(rng, multi=False, fail_key=False):
             good = rng.choice([1, -1]) if pn == "divisor" else rng.randint(1, 4)
             if pn in avail and rng.random() < 0.6:
                 pass  # produced by an earlier node
-            elif rng.random() < 0.5:
+            elif pn in avail or rng.random() < 0.5:
                 n["cfg"] = {pn: good}
             else:
                 need.setdefault(pn, good)
@@ -419,9 +419,9 @@ def mk_case(rng, cls, flags=None, trace=None):
         a["attempt"] = 0
     elif cls == "missing-context-key":
         pool = [k for k, _ in a["context"]]
-        if not pool:   # make the pipeline need something
-            nodes.insert(len(nodes) - 1, {"k": "add"})
-            case["missing"] = "addend"
+        if not pool:   # make the pipeline need something no node produces
+            nodes.insert(len(nodes) - 1, {"k": "divide"})
+            case["missing"] = "divisor"
         else:
             k = rng.choice(pool)
             a["context"] = [kv for kv in a["context"] if kv[0] != k]
@@ -466,6 +466,8 @@ def gen_cases(rng, n_random, matrix=True):
     if matrix:
         for cls in ALL_CLASSES:
             cases.append(mk_case(rng, cls, trace=rng.choice(["yaml", "cli", None, "yaml"])))
+        for tr in ("yaml", "cli", None):   # failing runs at different positions, with and without a trace
+            cases.append(mk_case(rng, "multi-fail", trace=tr))
         # early-return flags on valid and on rejected configurations
         for fl in FLAGSETS[1:4]:
             cases.append(mk_case(rng, "valid", flags=fl, trace="yaml"))
@@ -609,6 +611,25 @@ def oracles(ck, case, o, api, stats):
                                            "note": "pre-flight accepted (inspection reports no required key); not a C17 failure by the letter, reported under C02"}
 
 
+def read_facts():
+    """the generated facts, as text (for the evidence file; the comparison itself happens in Coq)"""
+    import re
+    out = {}
+    try:
+        txt = open(os.path.join(core.COQ, "Gen", "CliGen.v")).read()
+        m = re.search(r"Definition chain : list step := \[(.*?)\]\.", txt, re.S)
+        out["chain"] = [x.strip() for x in m.group(1).split(";")] if m else None
+        for name in ("codes", "loop_handlers", "stop_after_failure", "trace_lazy", "translation_failed"):
+            m = re.search(r"Definition %s[^:]*(?::[^=]*)?:= (.*?)\.\n" % name, txt)
+            out[name] = m.group(1) if m else None
+        itxt = open(os.path.join(core.COQ, "Gen", "InspectGen.v")).read()
+        m = re.search(r"Definition impl : variant := (.*?)\.", itxt)
+        out["inspection_variant"] = m.group(1) if m else None
+    except OSError as ex:
+        out["error"] = str(ex)
+    return out
+
+
 # ----- the check ---------------------------------------------------------------------------------------------------------------
 def run(ck):
     rng = random.Random(ck.seed * 7919 + 17)
@@ -620,6 +641,8 @@ def run(ck):
     if thorough and proved:
         ck.coqchk()
     pg.setup_impl()
+    ck.notes["generated_facts"] = read_facts()
+    ck.notes["generated_sources"] = {k: v.get("sources") for k, v in gen.items() if v.get("ok")}
     cases = gen_cases(rng, 560 if thorough else 14)
     with ThreadPoolExecutor(max_workers=WORKERS) as ex:
         obs = list(ex.map(run_case, cases))
